@@ -128,11 +128,13 @@ Definition corr_with (q : quirks) (c : reg_case) : bool :=
 Definition auto_next (w t : N) (cfg : snapshot) (st : N -> option ent) : N -> option ent :=
   fun n => snd (spec_calls t n (st n) (filt w (cfg n))).
 
-Definition exp_events (t : N) (names : list N) (cfg : snapshot) (st : N -> option ent) : list (N * N * spec) :=
-  let cs := flat_map (fun n => fst (spec_calls t n (st n) (filt 1 (cfg n)))) names in
+Definition exp_events_w (w t : N) (names : list N) (cfg : snapshot) (st : N -> option ent) : list (N * N * spec) :=
+  let cs := flat_map (fun n => fst (spec_calls t n (st n) (filt w (cfg n)))) names in
   flat_map (fun c => match c with Close n o => [(0, n, e_spec o)] | _ => [] end) cs
   ++ flat_map (fun c => match c with Init n e => [(1, n, e_spec e)] | _ => [] end) cs
   ++ flat_map (fun c => match c with Inherit n e _ => [(2, n, e_spec e)] | _ => [] end) cs.
+
+Definition exp_events := exp_events_w 1.
 
 Definition drop_gen (l : list (N * inst)) : list (N * ent) := map (fun '(n, i) => (n, i_ent i)) l.
 
@@ -216,3 +218,90 @@ Definition check_with (pinned : quirks) (c : reg_case) : result :=
 
 Definition explain_with (pinned : quirks) (c : reg_case) :=
   let '(ml, ms) := model_run pinned c in (vis_log (k_grp c) ml, ms).
+
+(** *** group "join": a watcher created (NewWatcher) while the registry is non-empty and, where the
+    harness manages to force it, while applyConfig is running in another goroutine.
+
+    The model treats NewWatcher as one atomic step placed before snapshot [j_join]: first event =
+    the registry filtered, then one event per later snapshot.  Observables: the rows of the first
+    event, and per later snapshot the event delivered to the new watcher (none = []) and
+    watcher.Entities(). *)
+Record join_step := { jo_ev : list (N * N * spec); jo_ents : list (N * spec) }.
+
+Record join_case := {
+  j_names : list N;
+  j_steps : list (list (N * spec));
+  j_join : nat;                        (* NewWatcher starts when this many snapshots have been applied *)
+  j_w : N;                             (* filter of the new watcher: 0 business controllers, 1 traffic objects *)
+  j_sched : N;
+  jo_first : list (N * N * spec);
+  jo_steps : list join_step
+}.
+
+Definition join_step_eqb (a b : join_step) : bool :=
+  list_eqb ev_eqb (jo_ev a) (jo_ev b) && list_eqb nspec_eqb (jo_ents a) (jo_ents b).
+
+Fixpoint join_model (q : quirks) (cats names : list N) (t : N) (steps : list (sched * snapshot))
+         (st : gstate) (x : N -> option ent) : list join_step :=
+  match steps with
+  | [] => []
+  | (sc, cfg) :: r =>
+      let st' := step q (fun _ _ _ => false) t sc cfg st in
+      let x' := late_next cats st' x in
+      {| jo_ev := ev_rows names (late_event cats st' x);
+         jo_ents := rows names (fun n => option_map e_spec (x' n)) |}
+      :: join_model q cats names (t + 1) r st' x'
+  end.
+
+Definition join_run (q : quirks) (c : join_case) : list (N * N * spec) * list join_step :=
+  let steps := map (fun l => (sched_of (j_sched c) (j_names c), cfg_of l)) (j_steps c) in
+  let pre := firstn (j_join c) steps in
+  let post := skipn (j_join c) steps in
+  let st := exec q (fun _ _ _ => false) 0 pre init_state in
+  let x := join_view (cats_of (j_w c)) st in
+  (map (fun '(n, e) => (1, n, e_spec e)) (rows (j_names c) x),
+   join_model q (cats_of (j_w c)) (j_names c) (N.of_nat (List.length pre)) post st x).
+
+(** the property on the observables: the first event is the last snapshot before the join, filtered;
+    every later event is exactly what the lifecycle automaton of a consumer built on this watcher
+    needs (so that it stays exactly-once per name), and the watcher's entities are the latest
+    snapshot, filtered *)
+Fixpoint prop_join_steps (w : N) (names : list N) (t : N) (cfgs : list (list (N * spec)))
+         (s : N -> option ent) (obs : list join_step) : bool :=
+  match cfgs, obs with
+  | [], [] => true
+  | l :: cr, o :: or =>
+      let cfg := cfg_of l in
+      list_eqb ev_eqb (jo_ev o) (exp_events_w w t names cfg s)
+      && list_eqb nspec_eqb (jo_ents o) (rows names (fun n => filt w (cfg n)))
+      && prop_join_steps w names (t + 1) cr (auto_next w t cfg s) or
+  | _, _ => false
+  end.
+
+Definition prop_join (c : join_case) (first : list (N * N * spec)) (obs : list join_step) : bool :=
+  let pre := firstn (j_join c) (j_steps c) in
+  let post := skipn (j_join c) (j_steps c) in
+  let cfg0 : snapshot := match rev pre with [] => (fun _ => None) | l :: _ => cfg_of l end in
+  let s0 : N -> option ent :=
+    fun n => option_map (fun sp => {| e_spec := sp; e_born := 0 |}) (filt (j_w c) (cfg0 n)) in
+  list_eqb ev_eqb first (map (fun '(n, e) => (1, n, e_spec e)) (rows (j_names c) s0))
+  && prop_join_steps (j_w c) (j_names c) (N.of_nat (List.length pre)) post s0 obs.
+
+Definition check_join_with (pinned : quirks) (c : join_case) : result :=
+  let '(mf, ms) := join_run pinned c in
+  let corr := list_eqb ev_eqb mf (jo_first c) && list_eqb join_step_eqb ms (jo_steps c) in
+  let prop := prop_join c (jo_first c) (jo_steps c) in
+  let attrib :=
+    if negb prop && corr && q_kind_change_as_update pinned then
+      let '(f, s) := join_run ideal c in if prop_join c f s then 1 else 0
+    else 0 in
+  (corr, prop,
+   match jo_steps c with
+   | [] => 0
+   | _ => 64 + bN (match jo_first c with [] => false | _ => true end) 1
+             + bN (existsb (fun o => match jo_ev o with [] => false | _ => true end) (jo_steps c)) 2
+             + bN (j_w c =? 1) 4 + bN (kind_changes [] (j_steps c)) 8
+   end,
+   attrib).
+
+Definition explain_join_with (pinned : quirks) (c : join_case) := join_run pinned c.
